@@ -171,16 +171,32 @@ def precedence_sessions(res, rng, tier):
     cfg = {'starting_balance': 1000, 'fee': 0, 'type': 'futures', 'futures_leverage': 1, 'futures_leverage_mode': 'cross',
            'exchange': 'Sandbox', 'warm_up_candles': 0}
     combos = []
+    variants = 6 if tier == 'quick' else 40
     for explicit in (True, False):
         for nd in (0, 2):
             for ng in (0, 2):
-                combos.append((explicit, nd, ng))
+                for v in range(variants):
+                    combos.append((explicit, nd, ng, v))
     bad = []
     rows = []
-    for (explicit, nd, ng) in combos:
-        decls = [{'name': f'p{j}', 'type': int if j == 0 else float, 'min': 10 + j, 'max': 20 + j, 'default': 15 + j} for j in range(nd)]
-        dna = 'w(' [:ng] if ng else ''
-        ex = {'p0': 999, 'p1': 0.5} if explicit else None
+    letters = '()*PQvw'                     # first, second, third, middle, last letters of the alphabet: the ends of the range matter
+    for (explicit, nd, ng, v) in combos:
+        # variant 0 is the fixed one of earlier runs; the others draw ranges that contain 0, defaults different from what is injected, and
+        # injected values that are falsy (0, 0.0), negative, equal to a bound or equal to the default
+        if v == 0:
+            decls = [{'name': f'p{j}', 'type': int if j == 0 else float, 'min': 10 + j, 'max': 20 + j, 'default': 15 + j} for j in range(nd)]
+            dna = 'w(' [:ng] if ng else ''
+            ex = {'p0': 999, 'p1': 0.5} if explicit else None
+        else:
+            decls = []
+            for j in range(nd):
+                lo = rng.choice([0, 0, -40, 10, -3])
+                hi = lo + rng.choice([79, 10, 1, 158])
+                ty = int if (j == 0) == (v % 2 == 0) else float
+                de = rng.choice([lo + 5, hi, lo + 1]) if ty is int else rng.choice([lo + 0.5, float(hi), lo + 2.25])
+                decls.append({'name': f'p{j}', 'type': ty, 'min': lo if ty is int else float(lo), 'max': hi if ty is int else float(hi), 'default': de})
+            dna = ''.join(rng.choice(letters) for _ in range(ng)) if ng else ''
+            ex = {f'p{j}': rng.choice([0, 0.0, 0, -1, 999, 0.5, 15, 1e-9]) for j in range(2)} if explicit else None
         seen.clear()
         try:
             research.backtest(cfg, [{'exchange': 'Sandbox', 'strategy': mk(decls, dna), 'symbol': 'BTC-USDT', 'timeframe': '1m'}], [],
@@ -190,19 +206,24 @@ def precedence_sessions(res, rng, tier):
         except Exception as e:
             hp = 'raised:' + type(e).__name__
         cand = {0: ex, 1: (jh.dna_to_hp(decls, dna) if ng else None), 2: {d['name']: d['default'] for d in decls} if decls else None, 3: None}
-        rows.append(((explicit, nd, ng), hp, cand))
+        rows.append(((explicit, nd, ng, v), hp, cand, decls, dna))
     body = ('From Coq Require Import List.\nFrom JV Require Import Run.C19Run.\nImport ListNotations.\nEval vm_compute in ' +
-            C.clist([f'source_code {C.cbool(e)} {C.cnat(nd)} {C.cnat(ng)}' for (e, nd, ng) in combos]) + '.\n')
+            C.clist([f'source_code {C.cbool(e)} {C.cnat(nd)} {C.cnat(ng)}' for (e, nd, ng, _v) in combos]) + '.\n')
     rc, out = C.coq_eval('c19_prec', body)
     r = C.parse_results(out)
     okc = rc == 0 and len(r) == 1
     kinds = C.parse_nat_list(r[0]) if okc else []
     res.oblige('precedence model evaluated', okc and len(kinds) == len(combos), out[-800:])
-    for (combo, hp, cand), kind in zip(rows, kinds):
-        if hp != cand[kind]:
-            bad.append({'explicit_given': combo[0], 'declarations': combo[1], 'dna_length': combo[2], 'strategy_saw': str(hp),
+    def same(a, b):
+        # exactly the same mapping: names, types and values (0 and 0.0 and False are different answers)
+        if a is None or b is None or isinstance(a, str) or isinstance(b, str):
+            return a is b or a == b
+        return list(a.keys()) == list(b.keys()) and all(type(a[k_]) is type(b[k_]) and a[k_] == b[k_] for k_ in a)
+    for (combo, hp, cand, decls, dna), kind in zip(rows, kinds):
+        if not same(hp, cand[kind]):
+            bad.append({'explicit_given': combo[0], 'declarations': [{**d, 'type': d['type'].__name__} for d in decls], 'dna': dna, 'explicit': str(cand[0]), 'strategy_saw': str(hp),
                         'model_says_source': ['explicit', 'dna()', 'defaults', 'none'][kind], 'expected': str(cand[kind])})
-    res.oblige('correspondence: effective_hp (Model/Hp.v) = self.hp seen by a strategy in 8 real sessions (explicit x declarations x dna)',
+    res.oblige(f'correspondence: effective_hp (Model/Hp.v) = self.hp seen by a strategy in {len(combos)} real sessions (explicit x declarations x dna, ranges containing 0, falsy injected values)',
                not bad, json.dumps(bad[:2]))
     res.add_cases(len(combos), len(combos), [{'session': str(rows[0][0]), 'hp_seen': str(rows[0][1])}],
                   'research.backtest sessions for every combination of explicit hyperparameters / declared defaults / dna()')
